@@ -191,6 +191,7 @@ def run(tier):
         f = fby[c["id"]]
         bygraph.setdefault(f["graph"]["name"], []).append((f["path"], c["den"], f["graph"], "random"))
     n = 0
+    nwide = 0
     for gname, items in sorted(bygraph.items()):
         for b in range(0, len(items), 6):
             batch = items[b:b + 6]
@@ -202,6 +203,19 @@ def run(tier):
                 paths.append({"pid": pid, "text": text})
                 meta[pid] = (path, text, g, den, src)
             hcases.append({"id": "%s/%d" % (gname, b), "graph": batch[0][2], "paths": paths, "custom": custom_of.get(gname) or ""})
+            # wide validations: the same observation made by a validation that carries 36 more nested constraints over
+            # other paths (all of them hold), i.e. more constraints in one validation than any fixture has
+            if len(hcases) % 9 == 4 and nwide < (10 if quick else 80):
+                nwide += 1
+                wpaths = []
+                for path, den, g, src in batch[:3]:
+                    pid = "p%06d" % n
+                    n += 1
+                    text = render_path(path, rnd, True, custom_of.get(gname))
+                    wpaths.append({"pid": pid, "text": text})
+                    meta[pid] = (path, text, g, den, src + " (wide validation)")
+                hcases.append({"id": "%s/%d/wide" % (gname, b), "graph": batch[0][2], "paths": wpaths,
+                               "custom": custom_of.get(gname) or "", "wide": True})
     obs = vlib.run_harness("pathden", hcases, "c02", timeout=3000)
     nontriv = 0
     for o in obs:
@@ -219,8 +233,9 @@ def run(tier):
                 "which checks Den = union of the generator's linear clauses on each and emits Den per focus node%s; plus %d "
                 "random (path depth<=4, <=4 alternatives; graph <=%d nodes) pairs judged by the same TLA+ denotation; each "
                 "rendered with random spacing/parentheses and observed through `in` traces (values), the maxCount trace "
-                "(distinct count) and nested sub-results (nodes); non-trivial = path reaching at least one value"
-                % (total_enum // 4, " (1:12 sample replayed)" if quick else "", len(fin), 12 if quick else 25),
+                "(distinct count) and nested sub-results (nodes); %d batches repeated inside a validation with 37 nested "
+                "constraints (36 always-true ones over the two-step paths); non-trivial = path reaching at least one value"
+                % (total_enum // 4, " (1:12 sample replayed)" if quick else "", len(fin), 12 if quick else 25, nwide),
         "exhaustive": not quick,
         "samples": [{"path": meta[p][1], "graph": meta[p][2]["name"], "den": meta[p][3]} for p in sorted(meta)[:: max(1, len(meta) // 5)]][:5],
         "checker_cmd": rs[0].cmd, "known_findings_hit": sorted(V.known_hits),
@@ -234,7 +249,7 @@ def replay(path):
     doc = json.load(open(path))
     c = doc["case"]
     case = {"id": "replay", "graph": c["graph"], "paths": [{"pid": "p000000", "text": c["text"]}],
-            "custom": "r" if "apiExt.r" in c["text"] else ""}
+            "custom": "r" if "apiExt.r" in c["text"] else "", "wide": "wide" in doc["case"].get("source", "")}
     obs = vlib.run_harness("pathden", [case], "replay_c02", shards=1)
     print(json.dumps(obs[0], indent=1))
     o = obs[0]["paths"][0]["nodes"].get(c["focus"], {"values": []})
